@@ -566,7 +566,7 @@ def run_differential(ctx, exe, name, impl_cases, model_cases, check_model=True):
             if getattr(ctx, "model", None) and check_model:
                 _, ms, _ = run_lines(ctx.model, model_cases[i] + "\n", args=["sites"])
                 msite = ms.strip()[-300:]
-            ctx.violation(key, what, {"case": impl_cases[i][:4000], "implementation": l[-600:], "sanitizer_report": reports[i][:1500],
+            ctx.violation(key, what, {"case": impl_cases[i], "model_case": model_cases[i], "implementation": l[-600:], "sanitizer_report": reports[i][:1500],
                                       "model": msite, "how": f"echo '<case>' | build/C07/{Path(exe).name}"})
     if mlines is not None:
         ctx.diff_lines(f"{name}-impl-vs-model", impl_cases, "\n".join(lines) + "\n", "\n".join(mlines) + "\n")
@@ -612,11 +612,28 @@ def run_streams(ctx, rx, streams):
     return results
 
 
+def replay(ctx, app, rx):
+    """./check C07 --replay <file>: exactly the recorded input on the implementation and on the model"""
+    import json
+    rp = json.load(open(ctx.replay_in)).get("replay", {})
+    if "case" in rp and app:
+        has_model = rp["case"].split()[0] != "dec"
+        lines = run_differential(ctx, app, "replay", [rp["case"]], [rp.get("model_case", rp["case"])], check_model=has_model)
+        ctx.sample({"replayed_case": rp["case"][:300], "implementation": lines[0][-300:] if lines else None})
+    elif "file" in rp and rx:
+        res = run_streams(ctx, rx, [(rp["stream"], rp["file"], rp["divisor"], rp["invert"], rp["noise_blanker"])])
+        ctx.sample({"replayed_stream": rp["file"], "result": res[0][2].strip()[-300:]})
+    else:
+        ctx.tie_broken("replay", "the replay file holds no concrete input (it records a broken proof / correspondence only)")
+
+
 def run(ctx):
     t0 = time.time()
     exes = build_harnesses(ctx)
     ctx.log(f"harness builds {time.time() - t0:.1f}s")
     app, rx = exes.get("c07_app"), exes.get("c07_rx")
+    if ctx.replay_in:
+        return replay(ctx, app, rx)
     if app:
         cases = gen_app_cases(ctx) + gen_ax25_cases(ctx)
         lines = run_differential(ctx, app, "app", cases, cases)
